@@ -362,10 +362,12 @@ Proof.
       pose proof (blen_enc_record T_BEGIN [0; 1; 0; 0; 0; 0; 0; 0]) as B1.
       pose proof (blen_enc_records T_PARAMS (P ++ [[]])) as B2.
       pose proof (blen_enc_records T_STDIN (S0 ++ [[]])) as B3.
-      set (tot := blen (enc_record T_BEGIN [0; 1; 0; 0; 0; 0; 0; 0]) + (blen (concat (map (enc_record T_PARAMS) (P ++ [[]]))) + blen (concat (map (enc_record T_STDIN) (S0 ++ [[]]))))) in *.
-      assert (H8 : 8 * (1 + Z.of_nat (length (P ++ [[]])) + Z.of_nat (length (S0 ++ [[]]))) <= tot) by (unfold tot; lia).
-      assert (Hd : 1 + Z.of_nat (length (P ++ [[]])) + Z.of_nat (length (S0 ++ [[]])) <= tot / 8) by (apply Z.div_le_lower_bound; lia).
-      lia. }
+      set (x1 := blen (enc_record T_BEGIN [0; 1; 0; 0; 0; 0; 0; 0])) in *.
+      set (x2 := blen (concat (map (enc_record T_PARAMS) (P ++ [[]])))) in *.
+      set (x3 := blen (concat (map (enc_record T_STDIN) (S0 ++ [[]])))) in *.
+      clearbody x1 x2 x3. unfold bytes in *.
+      assert (Hd : 1 + Z.of_nat (length (P ++ [[]])) + Z.of_nat (length (S0 ++ [[]])) <= (x1 + (x2 + x3)) / 8) by (apply Z.div_le_lower_bound; lia).
+      set (q := (x1 + (x2 + x3)) / 8) in *. clearbody q. lia. }
   rewrite app_nil_r.
   cbn [f_type f_content]. replace (T_BEGIN =? T_BEGIN) with true by reflexivity.
   replace (bytes_eqb [0; 1; 0; 0; 0; 0; 0; 0] [0; 1; 0; 0; 0; 0; 0; 0]) with true by reflexivity.
@@ -387,4 +389,127 @@ Proof.
   assert (Hnil : Forall (fun c : bytes => blen c <= MAXW) [[]]) by (constructor; [unfold blen, MAXW; cbn [length]; lia|constructor]).
   repeat (apply Forall_app; split); try exact Hnil;
     (eapply Forall_impl; [|eassumption]; intros c Hc; unfold rec_ok in Hc; lia).
+Qed.
+
+(* ---------------- the response reader ---------------- *)
+Lemma read_stream_spec f : forall resp acc,
+  fst (read_stream f resp acc) = acc ++ concat (map f_content (before_end (fst (dec_records f resp)))).
+Proof.
+  induction f as [|f IH]; intros resp acc.
+  - cbn [read_stream dec_records fst before_end map concat]. rewrite app_nil_r. reflexivity.
+  - destruct resp as [|b resp]; [cbn [read_stream dec_records fst before_end map concat]; rewrite app_nil_r; reflexivity|].
+    cbn [read_stream dec_records].
+    destruct (blen (b :: resp) <? 8); [cbn [fst before_end map concat]; rewrite app_nil_r; reflexivity|].
+    destruct (negb (nth 0 (b :: resp) 0 =? 1)); [cbn [fst before_end map concat]; rewrite app_nil_r; reflexivity|].
+    set (clen := nth 4 (b :: resp) 0 * 256 + nth 5 (b :: resp) 0).
+    set (pad := nth 6 (b :: resp) 0).
+    set (rest := skipn 8 (b :: resp)).
+    destruct (nth 1 (b :: resp) 0 =? T_END) eqn:Et.
+    + cbn [fst]. destruct (blen rest <? clen + pad); [cbn [fst before_end map concat]; rewrite app_nil_r; reflexivity|].
+      destruct (dec_records f _) as [l ok]. cbn [fst before_end f_type]. rewrite Et. cbn [map concat]. rewrite app_nil_r. reflexivity.
+    + destruct ((0 <? clen + pad) && (blen rest =? 0)) eqn:E0.
+      * assert (E1 : (blen rest <? clen + pad) = true) by lia. rewrite E1.
+        cbn [fst before_end map concat]. rewrite app_nil_r. reflexivity.
+      * destruct (blen rest <? clen + pad); [cbn [fst before_end map concat]; rewrite app_nil_r; reflexivity|].
+        rewrite IH. destruct (dec_records f _) as [l ok]. cbn [fst before_end f_type]. rewrite Et.
+        cbn [map concat f_content]. rewrite <- app_assoc. reflexivity.
+Qed.
+
+Lemma read_stream_end f : forall resp acc,
+  existsb (fun r => f_type r =? T_END) (fst (dec_records f resp)) = true -> snd (read_stream f resp acc) = 0.
+Proof.
+  induction f as [|f IH]; intros resp acc H.
+  - cbn [dec_records fst existsb] in H. discriminate.
+  - destruct resp as [|b resp]; [cbn [dec_records fst existsb] in H; discriminate|].
+    cbn [read_stream dec_records] in *.
+    destruct (blen (b :: resp) <? 8); [cbn [fst existsb] in H; discriminate|].
+    destruct (negb (nth 0 (b :: resp) 0 =? 1)); [cbn [fst existsb] in H; discriminate|].
+    set (clen := nth 4 (b :: resp) 0 * 256 + nth 5 (b :: resp) 0) in *.
+    set (pad := nth 6 (b :: resp) 0) in *.
+    set (rest := skipn 8 (b :: resp)) in *.
+    destruct (nth 1 (b :: resp) 0 =? T_END) eqn:Et; [reflexivity|].
+    destruct ((0 <? clen + pad) && (blen rest =? 0)); [reflexivity|].
+    destruct (blen rest <? clen + pad); [cbn [fst existsb] in H; discriminate|].
+    apply IH. destruct (dec_records f _) as [l ok]. cbn [fst existsb f_type] in H. rewrite Et in H. exact H.
+Qed.
+
+Lemma concat_stdout_only (l : list frec) :
+  existsb (fun r => negb (f_type r =? T_STDOUT) && negb (blen (f_content r) =? 0)) l = false ->
+  concat (map f_content l) = concat (map f_content (filter (fun r => f_type r =? T_STDOUT) l)).
+Proof.
+  induction l as [|r l IH]; intros H; [reflexivity|].
+  cbn [existsb] in H. apply orb_false_iff in H. destruct H as [H1 H2].
+  cbn [map concat filter]. destruct (f_type r =? T_STDOUT) eqn:E.
+  - cbn [map concat]. rewrite IH by exact H2. reflexivity.
+  - cbn [negb andb] in H1. assert (Hz : blen (f_content r) = 0) by lia.
+    apply blen_nil_iff in Hz. rewrite Hz. cbn [app]. apply IH. exact H2.
+Qed.
+
+(* the response stream is the STDOUT content, provided no other record carries content *)
+Theorem stdout_only_partial resp :
+  has_other_content resp = false -> fst (client_stream resp) = spec_stdout resp.
+Proof.
+  intros H. unfold client_stream. rewrite read_stream_spec. cbn [app].
+  unfold spec_stdout, reply_records, spec_records. apply concat_stdout_only. exact H.
+Qed.
+Theorem end_request_eof resp :
+  existsb (fun r => f_type r =? T_END) (fst (spec_records resp)) = true -> snd (client_stream resp) = 0.
+Proof. intros H. unfold client_stream. apply read_stream_end. exact H. Qed.
+
+(* ... and this is false in general: "ok" on STDOUT, "ERR" on STDERR *)
+Definition stderr_witness : bytes :=
+  [1;6;0;1;0;2;0;0;111;107; 1;7;0;1;0;3;0;0;69;82;82; 1;6;0;1;0;0;0;0; 1;3;0;1;0;8;0;0;0;0;0;0;0;0;0;0].
+Lemma stdout_only_refuted_lemma :
+  exists resp, spec_stdout resp = [111; 107] /\ fst (client_stream resp) = [111; 107; 69; 82; 82] /\ has_other_content resp = true.
+Proof. exists stderr_witness. vm_compute. repeat split. Qed.
+
+(* ---------------- the executable property holds of the model outside the finding class ---------------- *)
+From Bfe Require Import run.RunC55.
+
+Definition in_C55 (ps : list (bytes * bytes)) (body : bytes) (bc : Z) (resp : bytes) : val :=
+  VL [VL (map (fun kv => VL [VB (fst kv); VB (snd kv)]) ps); VB body; VZ bc; VB resp].
+
+Lemma dec_in_C55 ps body bc resp : dec_C55 (in_C55 ps body bc resp) = Some (ps, body, resp).
+Proof.
+  unfold in_C55, dec_C55.
+  assert (H : all_some (map dec_pair (map (fun kv => VL [VB (fst kv); VB (snd kv)]) ps)) = Some ps).
+  { induction ps as [|[k v] ps IH]; [reflexivity|]. cbn [map dec_pair fst snd all_some]. rewrite IH. reflexivity. }
+  rewrite H. reflexivity.
+Qed.
+
+Lemma bytes_eqb_refl (a : bytes) : bytes_eqb a a = true.
+Proof. apply bytes_eqb_eq. reflexivity. Qed.
+Lemma same_pairs_refl l : same_pairs l l = true.
+Proof.
+  unfold same_pairs. rewrite Nat.eqb_refl. cbn [andb].
+  assert (H : forallb (fun x => existsb (pair_eqb x) l) l = true).
+  { apply forallb_forall. intros x Hx. apply existsb_exists. exists x. split; [exact Hx|].
+    unfold pair_eqb. rewrite !bytes_eqb_refl. reflexivity. }
+  rewrite H. reflexivity.
+Qed.
+
+Theorem prop_C55_of_model ps body bc resp :
+  pairs_wf ps -> kf_C55 (in_C55 ps body bc resp) = 0 ->
+  prop_C55 (in_C55 ps body bc resp) (run_C55 (in_C55 ps body bc resp)) = true.
+Proof.
+  intros Hwf Hkf. unfold kf_C55 in Hkf. unfold run_C55, prop_C55. rewrite dec_in_C55 in *.
+  unfold out_C55. destruct (client_stream resp) as [st code] eqn:Ec.
+  assert (Hb : bad_input (VL [VB (do_written ps body); VB st; VZ code]) = false) by reflexivity.
+  rewrite Hb. cbn [orb].
+  rewrite request_roundtrip by exact Hwf. rewrite same_pairs_refl, bytes_eqb_refl. cbn [andb].
+  destruct (has_other_content resp) eqn:Eo; [discriminate|].
+  pose proof (stdout_only_partial resp Eo) as Hs. rewrite Ec in Hs. cbn [fst] in Hs. rewrite Hs, bytes_eqb_refl. cbn [andb].
+  destruct (has_end resp) eqn:Ee; [|reflexivity].
+  pose proof (end_request_eof resp Ee) as He. rewrite Ec in He. cbn [snd] in He. rewrite He. reflexivity.
+Qed.
+
+Lemma nonvacuous_lemma :
+  let ps := [([72; 79; 83; 84], [97]); ([81], repeat 7 200)] in
+  pairs_wf ps /\ kf_C55 (in_C55 ps [1; 2; 3] 7 [1;6;0;1;0;2;0;0;111;107; 1;3;0;1;0;8;0;0;0;0;0;0;0;0;0;0]) = 0
+  /\ run_C55 (in_C55 ps [1; 2; 3] 7 [1;6;0;1;0;2;0;0;111;107; 1;3;0;1;0;8;0;0;0;0;0;0;0;0;0;0]) <> VErr 0.
+Proof.
+  cbv zeta. split; [|split].
+  - repeat constructor; vm_compute; reflexivity.
+  - vm_compute. reflexivity.
+  - vm_compute. discriminate.
 Qed.
